@@ -33,6 +33,7 @@ type vAttempt struct {
 	wasCtl  bool
 	code    KError
 	connErr bool
+	known   int // the controller the client's cache named when the attempt was made
 }
 
 type vAdminSim struct {
@@ -49,7 +50,7 @@ func (s *vAdminSim) answer(b *Broker) (KError, error) {
 		s.moves--
 		s.client.trueCtl = 1 - s.client.trueCtl
 	}
-	a := vAttempt{broker: b.id, wasCtl: int(b.id) == s.client.trueCtl}
+	a := vAttempt{broker: b.id, wasCtl: int(b.id) == s.client.trueCtl, known: s.client.cached}
 	if !a.wasCtl {
 		a.code = ErrNotController
 	} else {
@@ -105,6 +106,9 @@ func (s *vAdminSim) assertControllerOp(err error, max int, code func(error) (KEr
 	}
 	vAssert(n <= max || max == 0, "attempts-within-budget")
 	for i, a := range s.attempts {
+		// every attempt, retries included, is addressed to the controller the client knows at
+		// that moment (i.e. the one learnt by the refresh that preceded the retry)
+		vAssert(int(a.broker) == a.known, "attempt-addressed-to-the-currently-known-controller")
 		if i+1 < n {
 			vAssert(!a.connErr && a.code == ErrNotController, "only-not-controller-is-retried")
 		}
